@@ -639,7 +639,13 @@ impl Prop for C08 {
             // a wedged loader keeps its pipe workers spinning: a case that burns two CPU-minutes
             // (normal: well under a CPU-second) is reported as non-termination by the supervisor
             .hang(Some(120))
-            .floor(tier.pick(40, 2_000))]
+            .floor(tier.pick(40, 2_000)),
+            // one file of 66 000 - 70 000 lines (one pipe beyond 2^16 items)
+            Lane::new("long", tier.pick(2, 16))
+                .cap(tier.pick(600, 1500))
+                .hang(Some(600))
+                .shards(2)
+                .floor(1)]
     }
 
     fn rule() -> &'static str {
@@ -660,7 +666,10 @@ impl Prop for C08 {
          generator for the same strategy and seed), same order when shuffle and sort are off. Items \
          are compared by fingerprint (input, target, token ids, labels), which also checks that every \
          global index is processed identically in every run. non-trivial = randomised preprocessing \
-         or postprocessing active, >= 2 batches in the reference run and a variant with >= 2 threads."
+         or postprocessing active (lane long: more than 2^16 items in the stream), >= 2 batches in the \
+         reference run and a variant with >= 2 threads. Lane long: one file of 66 000-70 000 lines, \
+         cheap pipeline, variants with 4 and 2 threads, two ranks, split at n/2 and a fast-forward just \
+         beyond item 2^16."
     }
 
     fn assumptions() -> Vec<&'static str> {
@@ -671,7 +680,46 @@ impl Prop for C08 {
         ]
     }
 
-    fn generate(rng: &mut Rng, _tier: Tier, _lane: &str) -> Case {
+    fn generate(rng: &mut Rng, tier: Tier, lane: &str) -> Case {
+        if lane == "long" {
+            // one epoch of one rank beyond 2^16 items: an ordinary case reduced to a cheap
+            // pipeline over one file of 66 000 - 70 000 lines, compared between 0, 2 and 4 workers,
+            // two ranks, and a fast-forward beyond item 2^16
+            let mut c = Self::generate(rng, tier, "main");
+            let n = rng.random_range(66_000..=70_000usize);
+            c.files = vec![(0..n)
+                .map(|l| {
+                    let text = format!("t0x{l}q {}", WORDS.choose(rng).unwrap());
+                    if l % 2 == 0 {
+                        json!({ "input": text }).to_string()
+                    } else {
+                        json!({"input": text, "target": text}).to_string()
+                    }
+                })
+                .collect()];
+            c.pre = if rng.random_bool(0.5) { Pre::None } else { Pre::Clean(false) };
+            c.pre_per_source = vec![];
+            c.post = Post::None;
+            c.strategy = 0;
+            c.epoch = 0;
+            c.batch_limit = *[16usize, 40, 200].choose(rng).unwrap();
+            c.padded = false;
+            c.shuffle = false;
+            c.sort = false;
+            c.prefetch = 1;
+            c.max_length = 512;
+            c.skip = 0;
+            c.limit = None;
+            c.variants = vec![(4, 3, 0), (2, 0, 0)];
+            c.world = 2;
+            c.split_k = n / 2;
+            c.ff_k = vec![rng.random_range(65_530..=65_600)];
+            c.fresh_process = false;
+            c.two_loaders = false;
+            c.history = vec![];
+            c.sched_variants = vec![];
+            return c;
+        }
         let nfiles = rng.random_range(1..=3usize);
         let strategy = rng.random_range(0..3u8);
         let g_all = rng.random_bool(0.5);
@@ -1350,7 +1398,8 @@ fn check_inner(c: &Case, files: &Files, obs: &mut Obs) {
         || c.pre_per_source.iter().any(is_random)
         || !matches!(c.post, Post::None | Post::Clip);
     obs.tag_if(!c.pre_per_source.is_empty(), "pre-per-source");
-    obs.nontrivial_if(randomised && b0.len() >= 2 && max_threads >= 2);
+    // (long lane: more than 2^16 items through one pipe count as non-trivial as well)
+    obs.nontrivial_if((randomised || flat(&b0).len() > 65_536) && b0.len() >= 2 && max_threads >= 2);
     obs.add("loader_runs", runs);
     obs.add("items_in_reference_stream", f0.len() as u64);
     obs.max("max_batches", b0.len() as u64);
